@@ -39,7 +39,7 @@ for n in range(N + 1):
     ps = ['p%d' % i for i in range(n + 1)]
     P = ' '.join(ps)
     Pl = '[' + ', '.join(ps) + ']'
-    unf_bern = 'bernstein, bernsteinAux, polyEval, List.foldl, Nat.choose'
+    unf_bern = 'bernstein, bernsteinAux, polyEval, Nat.choose'
     w('/-! ## degree %d -/\n' % n)
     w('theorem bezierPoint_%d (%s t : K) :\n    Gen.C19.bezier_point_%d %s t = bernstein %s t := by\n'
       '  simp [Gen.C19.bezier_point_%d, %s] <;> ring\n\n' % (n, P, n, P, Pl, n, unf_bern))
